@@ -47,8 +47,8 @@ Section StepFacts.
     end.
   Proof.
     destruct (forall_prefix _ _ _ He) as [He1 He2].
-    rewrite <- (applied_configuration_is_current c (es ++ [e])%list Hcm He HK k).
-    rewrite <- (applied_configuration_is_current c es Hcm He1 (k3_hist_prefix _ _ HK) k).
+    rewrite <- (applied_configuration_is_current c (es ++ [e])%list (or_introl Hcm) He HK k).
+    rewrite <- (applied_configuration_is_current c es (or_introl Hcm) He1 (k3_hist_prefix _ _ HK) k).
     rewrite shadow_run_app. cbn [shadow_run]. fold (run c es).
     apply (lookup_after_batch _ _ k false).
     - destruct (shadow_run_keys c es init [] (fn_inv_init c)) as [W _]; auto.
